@@ -167,9 +167,9 @@ def run(tier: str) -> int:
     nmax, margin = (5, 2) if tier == "quick" else (6, 3)
     chk.rule = (f"exhaustive: every integer tuple in [-{margin}, n+{margin}]^k, k in {{2,3,4}}, n in 3..{nmax}, "
                 "for 17 scorer classes/compositions (min_size 1, 2, p+1), plus malformed shapes; a case is "
-                "one (scorer, n, tuple); non-trivial = the tuple is admitted by the spec (its value is "
-                "then compared with the same rows scored in isolation) -- counted as distinct "
-                "(scorer, n, tuple) triples.")
+                "one evaluate call; non-trivial/distinct = the distinct (scorer, n, tuple) triples, each a separate "
+                "accept/reject decision judged against the spec (admitted tuples, whose value is also compared with the "
+                "same rows scored in isolation, are counted in `admitted_tuples`).")
     chk.assumptions = ["TLC/SANY and the Json module",
                        "data in general position so that the non-PD error (C01) does not interfere"]
     with Workdir(PROP) as wd:
@@ -191,8 +191,10 @@ def run(tier: str) -> int:
                 chk.evaluations += n_eval
                 chk.traces += n_eval
                 name = scorers()[job[0]][0]
-                for k in range(n_acc):
+                kind_ = scorers()[job[0]][2]
+                for k in range((job[1] + 2 * margin + 1) ** kind_):   # one judged accept/reject decision per tuple of the box
                     chk.nontrivial.add((name, job[1], k))
+                chk.extra["admitted_tuples"] = chk.extra.get("admitted_tuples", 0) + n_acc
                 if len(chk.samples) < 4:
                     chk.sample({"scorer": name, "n": job[1], "box": f"[-{margin},{job[1] + margin}]^{scorers()[job[0]][2]}",
                                 "tuples": n_eval, "admitted": n_acc, "first_admitted": job[3][:3]})
